@@ -12,6 +12,10 @@ def extra(choice, sig):
         # the automatic default: (a) in the regime where its own documented heuristic (default tol 1e-6 < 1/sqrt(10 n^2)) selects the
         # exact algorithm, no stochastic estimator may be reached; (b) for every size (known finding C08-auto-large beyond the switch)
         return [dict(kk, regime=r) for kk in ks for r in ("exact-by-documented-heuristic", "any-size")]
+    if any(c[0] == "op" and c[1] == "Kronecker" for c in choice):
+        # a square Kronecker product may have NON-square factors ((2 x 3) (x) (3 x 2)): the factor-wise rule must refuse it, not return the product of the factors' diagonals
+        # (diag only: the generic trace rule asserts squareness itself, so trace(Kronecker) of non-square factors already refuses -- an allowed outcome)
+        return ks + ([dict(kk, square=False) for kk in ks] if any(c[0] == "int" for c in choice) else [])
     if any(c[0] == "op" and c[1] == "BlockDiag" for c in choice):
         # the BlockDiag rule repeats python lists by the multiplicity: concrete multiplicities, enumerated
         return [dict(kk, mult=m) for kk in ks for m in ((1, 1, 1), (2, 1, 3), (3, 2, 1))]
